@@ -27,7 +27,7 @@
      is hist_ok), which every line preserves;
    * the document. *)
 From V Require Import lib.PyBase lib.PyStr model.Validation model.Expo model.TextParser model.OMParser
-  proofs.OMProofs proofs.OMTotal.
+  proofs.OMProofs proofs.OMTotal proofs.ParseSession.
 Open Scope N_scope.
 
 Theorem C14_om_parse_labels_total : forall legacy s, only_VE (parse_labels legacy true s true).
@@ -119,6 +119,22 @@ Section C14omt.
              num_eqb num_isinf num_integral num_huge num_zero num_one num_inf ts_float is_word is_space_re is_digit_re).
   Qed.
 
+  (* the same outcome on every run of a process: a run is a sequence of parses, the parser module keeps nothing between
+     calls (type_suffixes, seen_names, seen_groups are locals of one call), so a run is the parser mapped over its
+     documents and a document met at two points of two runs has one outcome (harness/c14hist.py observes this) *)
+  Let om := om_parse legacy true true true true true fix_unit fix_quote fix_tsexp fix_sname
+               NUM parse_num parse_float parse_int num_lt num_eqb num_isinf num_integral num_huge
+               num_zero num_one num_inf ts_float is_word is_space_re is_digit_re.
+
+  Theorem C14_om_history_independent : forall (before after : list str) (text : str),
+    nth_error (session _ _ om (before ++ text :: after)) (length before) = Some (om text).
+  Proof. intros before after text; exact (session_history_independent _ _ om before text after). Qed.
+
+  Theorem C14_om_same_outcome_in_any_run : forall (run1 run2 : list str) i j text,
+    nth_error run1 i = Some text -> nth_error run2 j = Some text ->
+    nth_error (session _ _ om run1) i = nth_error (session _ _ om run2) j.
+  Proof. intros run1 run2 i j text; exact (session_same_outcome _ _ om run1 run2 i j text). Qed.
+
   (* the greedy repetitions inside re_spans / re_deltas never stop for lack of fuel *)
   Theorem C14_om_regex_fuel_sufficient : forall s k,
     om_span_more is_digit_re (length s + k) s = om_span_more is_digit_re (length s) s
@@ -146,3 +162,5 @@ Example C14_om_total_nonvacuous :
   (forall c, is_digit c = true -> is_space_uni c = false)
   /\ doc_total_ok_shape = true.
 Proof. exact (conj toy_digit_not_space om_total_nonvacuous). Qed.
+Print Assumptions C14_om_history_independent.
+Print Assumptions C14_om_same_outcome_in_any_run.
